@@ -3,8 +3,9 @@ NEXT NNext
 CONSTANTS
   Mode = "pairs"
   Depth = 1
+  NFixed = {}
   NBug = "none"
   NVSpace = "tiny"
   NCompoundV = "tiny"
-  NKinds = {"isinstance", "issubclass", "typeis", "typeguard", "is", "eq", "in", "truthy", "len", "c_isinstance", "c_isvalue", "not", "and", "or", "deep"}
+  NKinds = {"isinstance", "issubclass", "typeis", "typeguard", "is", "eq", "in", "truthy", "len", "c_isinstance", "c_isvalue", "match", "not", "and", "or", "deep"}
 CHECK_DEADLOCK FALSE
